@@ -130,9 +130,14 @@ def run_seed(run, cfg, site, seed_url, seed_id="seed", hops=0, max_passes=12, dc
                 regex_excluded.add(r["canon"])
         send_cfg()
         out = run.both({"op": "pre"}, {"op": "pre", "norm": oracle})
-        if out.startswith("panic") or out.startswith("harness"):
+        if out.startswith("panic") or out.startswith("harness") or out.startswith("crash"):
+            trace["crash"] = out[:200]
             return "panic", tree, trace
+        before_pre = tree
+        out, _, sent = out.partition(" sent=")
         tree = parse_dump(out)
+        trace.setdefault("pre", []).append({"before": before_pre, "after": tree, "oracle": oracle,
+                                            "sent": [unhex(x) for x in sent.split(",") if x] if cfg.get("useHQ") else None})
         run.both({"op": "check"})
         lvl = max_depth(tree)
         todo = [n for n, d, _ in walk(tree) if n["st"] == "PreProcessed" and d == lvl]
